@@ -14,6 +14,6 @@ let () =
   register "alg_mul" (fun a -> out trats (alg_mul (zp (arg a 0)) (qp (arg a 1)) (qp (arg a 2))));
   register "alg_pow" (fun a -> out trats (alg_pow (zp (arg a 0)) (qp (arg a 1)) (int_ (arg a 2))));
   register "alg_pow_u64" (fun a -> out trats (alg_pow (zp (arg a 0)) (qp (arg a 1)) (int_ (arg a 2))));
-  register "alg_theta_pow" (fun a -> out trats (alg_pow (zp (arg a 0)) alg_new (int_ (arg a 1))));
+  register "alg_theta_pow" (fun a -> out trats (alg_pow (zp (arg a 0)) (alg_new (zp (arg a 0))) (int_ (arg a 1))));
   register "alg_as_coefs" (fun a -> out trats (as_coefs Base.Checked (zp (arg a 0)) (qp (arg a 1))))
 let init () = ()
